@@ -32,6 +32,8 @@ def universes(tier):
     u["SCRG"] = list(U.scrg_universe("quick" if tier == "quick" else "thorough"))
     u["symmetric"] = [g for _, g in U.symmetric()]
     u["stars-as-SCRG"] = [U.to_kind(g, SCRG) for g in U.stars(4)][::2]
+    u["stars-extra"] = list(U.stars_extra())
+    u["symmetric-reactions"] = [g for _, g in U.symmetric_reactions()][::5]
     if tier == "thorough":
         u["MG5"] = list(U.MG5_reps())
         u["CRG4"] = U.reps(U.crg_labelled(4, ("C",), max_bonds=3))
